@@ -5,14 +5,20 @@ Property theorems only.  They are about the model of `Model/FShift.lean` instant
 definitions the driver runs at `Float`.  Every statement is for ALL traces `x : Array ℝ` of every length ≥ 2 (odd, even,
 prime, …), all real shifts, both axes.  Helper lemmas: `Lemmas/FShift.lean` (arrays), `Analysis/FShiftDFT.lean` (DFT),
 `Analysis/FShift.lean` (the rfft/irfft pipeline = two-sided form `𝓕⁻(μ_s·𝓕x)`), `Analysis/FShiftArray.lean`,
-`Analysis/FShiftPeak.lean`.
+`Analysis/FShiftPeak.lean`; round h: `Model/FShiftND.lean` (arrays of any dimension), `Lemmas/FShiftPlan.lean` (stage list,
+frequency-domain entry point, vectorised `parabolic_max`, N-d layout; generic in the scalar type), `Analysis/FShiftPeak2.lean`,
+`Analysis/FShiftCorrmax.lean` (autocorrelation peak, exact whole-sample delay estimate).  The integer / stage-order skeleton
+the model shares with the source (`planReal`, `planFreq`, `impulseLen`, `shiftExtentAlongAxis`, `pmaxPlan`, `corrmaxShift`,
+`shiftWaveformPlan`) is proved equal to the translation of the current source text in `Tie/C07.lean`.
 
 Not provable (numeric, checked by the oracle each run → the property is "partial" on this clause): the accuracy of the
-delay estimate `wave_shift_corrmax` ("within a few hundredths of a sample") — it depends on `scipy.signal.correlate`
-of a sampled wavelet and on how well a parabola fits the correlation peak.
+delay estimate `wave_shift_corrmax` for FRACTIONAL delays ("within a few hundredths of a sample") — it depends on how well a
+parabola fits the peak of the sampled correlation.  For whole-sample delays it is exact: `corrmax_integer_delay`.
 -/
 import IblVerif.Analysis.FShiftArray
 import IblVerif.Analysis.FShiftPeak
+import IblVerif.Analysis.FShiftPeak2
+import IblVerif.Analysis.FShiftCorrmax
 
 open scoped Real
 
@@ -178,7 +184,212 @@ theorem parabolic_max_edge (x : Array ℝ) (h : argmax realLt x = 0 ∨ argmax r
     parabolicMaxR x = (((argmax realLt x : ℕ) : ℝ), at0 x (argmax realLt x)) :=
   parabolicMaxR_edge x h
 
+/-! ### Round h — the source's stage list, the frequency-domain entry point, arrays of any dimension -/
+
+/-- **The stage list of the source, executed with the model's primitives, is the function all theorems above are about.**
+`planReal` is proved equal to the translation of the CURRENT source text by `Tie.C07.fshift_scalar_eq` /
+`fshift_pertrace_eq` (impulse value 1 at flat position 1, both forward transforms along the axis, inverse transform to
+`ns` samples along the axis, in this order). -/
+theorem fshift_plan (x : Array ℝ) (s : ℝ) (perTrace : Bool) (axis : Int) :
+    runPlan realTrig x s (planReal perTrace axis (x.size : Int)) = some (fshiftCore realTrig x s) :=
+  runPlan_planReal realTrig x s perTrace axis
+
+/-- **`fshift` of a real trace = inverse real transform of `fshift(rfft(w), s, ns=n)`** (the frequency-domain entry point
+applied between the two transforms), for every trace and every real shift. -/
+theorem fshift_freq_eq_time (x : Array ℝ) (s : ℝ) :
+    fshiftCore realTrig x s = irfft realTrig (fshiftFreq realTrig (rfft realTrig x) x.size s) x.size :=
+  fshiftCore_eq_freq realTrig x s
+
+/-- the frequency-domain call accepts exactly a half spectrum of `ns // 2 + 1` bins with `ns ≥ 2` and preserves its size -/
+theorem fshift_freq_shape (W : Array (ℝ × ℝ)) (ns : ℕ) (s : ℝ) (hn : 2 ≤ ns) (hW : W.size = ns / 2 + 1) :
+    ∃ Y, fshiftFreq1 realTrig W ns s = .ok Y ∧ Y.size = W.size :=
+  ⟨_, fshiftFreq1_ok realTrig W ns s hn hW, by simp⟩
+
+/-- **In the frequency domain successive shifts add up for EVERY length and all real shifts** (no Nyquist exception: the
+defect of `fshift_add_defect` is created by the inverse real transform, which keeps only the real part of the Nyquist bin). -/
+theorem fshift_freq_add (W : Array (ℝ × ℝ)) (n : ℕ) (a b : ℝ) :
+    fshiftFreq realTrig (fshiftFreq realTrig W n a) n b = fshiftFreq realTrig W n (a + b) :=
+  fshiftFreq_add W n a b
+
+/-- **Each trace of an array of ANY dimension receives its own shift along ANY axis** (negative axes included): for the
+normalised axis `ax` with extent `n ≥ 2`, `outer`/`inner` the products of the extents before/after it, and a scalar shift or a
+vector with one entry per trace, the call succeeds, preserves the size, and sample `(o, t, i)` of the result is sample `t` of the
+1-D shift of trace `(o, i)` by entry `o * inner + i`.  With `fshift_int_eq_roll`, `fshift_zero`, `fshift_add`,
+`fshift_bandlimited` (statements about `fshiftCore` on one trace) this carries every clause to every trace of an N-d array. -/
+theorem fshift_nd_pertrace (shape : List ℕ) (data : Array ℝ) (s : Shift ℝ) (axis : Int) (ax : ℕ)
+    (hax : normAxis shape.length axis = some ax) (hn : 2 ≤ shape.getD ax 0)
+    (hs : s.fitsND (extentProd (shape.take ax)) (extentProd (shape.drop (ax + 1)))) :
+    ∃ y, fshiftND realTrig shape data s axis = .ok y
+      ∧ y.size = extentProd (shape.take ax) * shape.getD ax 0 * extentProd (shape.drop (ax + 1))
+      ∧ ∀ o t i, o < extentProd (shape.take ax) → t < shape.getD ax 0 → i < extentProd (shape.drop (ax + 1)) →
+          at0 y ((o * shape.getD ax 0 + t) * extentProd (shape.drop (ax + 1)) + i)
+            = at0 (fshiftCore realTrig (traceND data (shape.getD ax 0) (extentProd (shape.drop (ax + 1))) o i)
+                (s.get (o * extentProd (shape.drop (ax + 1)) + i))) t :=
+  fshiftND_spec realTrig shape data s axis ax hax hn hs
+
+/-- on a 1-D array the N-d model is `fshift1`, error branches included -/
+theorem fshift_nd_one_dim (x : Array ℝ) (s : Shift ℝ) (axis : Int) :
+    fshiftND realTrig [x.size] x s axis = fshift1 realTrig x s axis :=
+  fshiftND_one_dim realTrig x s axis
+
+/-- on a rectangular 2-D array, along the last axis, the N-d model shifts row `i` by its own entry — the same trace-wise result
+as `fshift2` (`fshift_pertrace_rows`) -/
+theorem fshift_nd_two_dim_rows (w : Array (Array ℝ)) (ncol : ℕ) (hrect : ∀ i (h : i < w.size), w[i].size = ncol)
+    (s : Shift ℝ) (axis : Int) (hax : axis = 1 ∨ axis = -1) (hn : 2 ≤ ncol) (hs : s.fits w.size) :
+    ∃ y, fshiftND realTrig [w.size, ncol] (flatten2 w ncol) s axis = .ok y ∧ y.size = w.size * ncol ∧
+      ∀ i t, i < w.size → t < ncol → at0 y (i * ncol + t) = at0 (fshiftCore realTrig (w.getD i #[]) (s.get i)) t :=
+  fshiftND_two_dim_rows realTrig w ncol hrect s axis hax hn hs
+
+/-- … and along the first axis column `j` by its own entry — the same as `fshift2` (`fshift_pertrace_cols`) -/
+theorem fshift_nd_two_dim_cols (w : Array (Array ℝ)) (ncol : ℕ) (s : Shift ℝ) (axis : Int) (hax : axis = 0 ∨ axis = -2)
+    (hn : 2 ≤ w.size) (hs : s.fits ncol) :
+    ∃ y, fshiftND realTrig [w.size, ncol] (flatten2 w ncol) s axis = .ok y ∧ y.size = w.size * ncol ∧
+      ∀ i j, i < w.size → j < ncol → at0 y (i * ncol + j) = at0 (fshiftCore realTrig (column w j) (s.get j)) i :=
+  fshiftND_two_dim_cols realTrig w ncol s axis hax hn hs
+
+/-! ### Round h — undoing a shift; exactly when successive shifts add up -/
+
+theorem fshiftCore_zero (x : Array ℝ) (hn : 2 ≤ x.size) : fshiftCore realTrig x 0 = x := by
+  have h := fshift_zero x hn 0 (Or.inl rfl)
+  have h3 : ¬ (x.size < 2) := by omega
+  simpa [fshift1, h3] using h
+
+/-- **Undoing a shift, with the exact defect**: `fshift(fshift(x, a), -a)` is `x` minus, for even length only,
+`X_{n/2} · sin²(πa) · (-1)^t / n` (this is the composition `channel_shift` / destriping relies on: `fshift(x, -sample_shift)`
+undoes `fshift(x, sample_shift)`). -/
+theorem fshift_inverse_defect (x : Array ℝ) (hn : 2 ≤ x.size) (a : ℝ) (t : ℕ) (ht : t < x.size) :
+    at0 (fshiftCore realTrig (fshiftCore realTrig x a) (-a)) t = at0 x t
+      - (if x.size % 2 = 0 then nyquist x * Real.sin (π * a) ^ 2 * (-1 : ℝ) ^ t / x.size else 0) := by
+  rw [fshift_add_defect x hn a (-a) t ht, add_neg_cancel, fshiftCore_zero x hn, mul_neg, Real.sin_neg]
+  split <;> ring
+
+/-- **A shift is undone exactly by the opposite shift** whenever the length is odd, or the shift is a whole number of
+samples, or the trace has no energy at the Nyquist frequency. -/
+theorem fshift_inverse (x : Array ℝ) (hn : 2 ≤ x.size) (a : ℝ)
+    (h : x.size % 2 = 1 ∨ (∃ m : ℤ, a = m) ∨ nyquist x = 0) :
+    fshiftCore realTrig (fshiftCore realTrig x a) (-a) = x := by
+  rw [fshift_add x hn a (-a) (by rcases h with h | h | h <;> simp [h]), add_neg_cancel, fshiftCore_zero x hn]
+
+/-- **Characterisation: successive shifts add up IF AND ONLY IF the length is odd, or one of the shifts is a whole number of
+samples, or the Nyquist coefficient vanishes.**  The hypothesis of `fshift_add` is necessary as well as sufficient, i.e. the
+known finding F13 (`fshift_add_counterexample`) is the exact complement: even length ∧ both shifts fractional ∧ Nyquist energy. -/
+theorem fshift_add_iff (x : Array ℝ) (hn : 2 ≤ x.size) (a b : ℝ) :
+    fshiftCore realTrig (fshiftCore realTrig x a) b = fshiftCore realTrig x (a + b)
+      ↔ (x.size % 2 = 1 ∨ (∃ m : ℤ, a = m) ∨ (∃ m : ℤ, b = m) ∨ nyquist x = 0) := by
+  refine ⟨fun heq => ?_, fshift_add x hn a b⟩
+  by_contra hne
+  simp only [not_or] at hne
+  obtain ⟨hodd, ha, hb, hny⟩ := hne
+  have heven : x.size % 2 = 0 := by omega
+  have hd := fshift_add_defect x hn a b 0 (by omega)
+  rw [heq, if_pos heven, pow_zero, mul_one] at hd
+  have hx : (x.size : ℝ) ≠ 0 := by
+    have : 0 < x.size := by omega
+    positivity
+  have hz : nyquist x * (Real.sin (π * a) * Real.sin (π * b)) = 0 := by
+    have : nyquist x * (Real.sin (π * a) * Real.sin (π * b)) / x.size = 0 := by linarith
+    rcases div_eq_zero_iff.mp this with h | h
+    · exact h
+    · exact absurd h hx
+  have hint : ∀ c : ℝ, Real.sin (π * c) = 0 → ∃ m : ℤ, c = m := by
+    intro c hc
+    obtain ⟨m, hm⟩ := Real.sin_eq_zero_iff.mp hc
+    refine ⟨m, ?_⟩
+    have hpi : (π : ℝ) ≠ 0 := Real.pi_ne_zero
+    have : π * c = π * m := by rw [← hm]; ring
+    exact mul_left_cancel₀ hpi this
+  rcases mul_eq_zero.mp hz with h | h
+  · exact hny h
+  · rcases mul_eq_zero.mp h with h | h
+    · exact ha (hint a h)
+    · exact hb (hint b h)
+
+/-- the defect of undoing a shift is non-zero exactly on the complement: a concrete instance (`[1, 0]`, half a sample) -/
+theorem fshift_inverse_counterexample :
+    at0 (fshiftCore realTrig (fshiftCore realTrig #[1, 0] (1 / 2)) (-(1 / 2))) 0 = 1 / 2 := by
+  rw [fshift_inverse_defect #[1, 0] (by simp) (1 / 2) 0 (by simp)]
+  have hs : Real.sin (π * (1 / 2)) = 1 := by rw [mul_one_div, Real.sin_pi_div_two]
+  have hny : nyquist #[1, 0] = 1 := by
+    simp [nyquist, Finset.sum_range_succ, at0, Array.getD]
+  rw [hs, hny]
+  simp [at0, Array.getD]
+  norm_num
+
+/-! ### Round h — vectorised `parabolic_max` -/
+
+/-- **The 2-D branch of `parabolic_max` is the 1-D function applied to every row** (rows of at least one sample): clipped
+positions and the overwrite of edge rows included.  (The same statement holds for the `Float` twin, NaN samples included:
+`Lemmas/FShiftPlan.parabolicMax2_eq_map` is generic in the scalar type.) -/
+theorem parabolic_max_rows (w : Array (Array ℝ)) (hw : ∀ i (h : i < w.size), 0 < w[i].size) :
+    parabolicMax2 (1 / 2 : ℝ) realIsZero realLt w = w.map parabolicMaxR :=
+  parabolicMax2_eq_map _ _ _ w hw
+
+/-- the interpolation is `0.5 * [[1,-2,1],[-1,0,1],[0,2,0]]` applied to the three samples (`pmaxMatrix` is tied to the
+literal in the source by `Tie.C07.pmax_1d_eq` / `pmax_2d_eq`) -/
+theorem parabolic_max_matrix (vm v0 vp : ℝ) :
+    parabolicVertex (1 / 2 : ℝ) realIsZero vm v0 vp =
+      (let p0 := 1 / 2 * pmaxRowDot 0 vm v0 vp
+       let p1 := 1 / 2 * pmaxRowDot 1 vm v0 vp
+       let p2 := 1 / 2 * pmaxRowDot 2 vm v0 vp
+       let ipeak := -p1 / (p0 + if p0 = 0 then 1 else 0) / 2
+       (ipeak, p2 + ipeak * p1 + ipeak * ipeak * p0)) :=
+  parabolicVertex_matrix vm v0 vp
+
+/-! ### Round h — the delay estimate is exact for whole-sample delays -/
+
+/-- **Estimating the delay between a waveform and its copy delayed by a whole number of samples returns exactly the applied
+shift and re-aligns the copy exactly.**  Model of `waveforms.wave_shift_corrmax` = `scipy.signal.correlate(mode='same')`
+(its defining sum) → `parabolic_max` → `(ipeak - floor(n/2)) * -1` → `fshift(spike2, -shift)`.  For every waveform `x` with a
+non-zero sample and every integer delay `m` such that the delayed waveform does not wrap around the window (`NoWrap`) and the
+correlation peak `n/2 - m` is an interior sample: `wave_shift_corrmax(x, roll(x, m)) = (x, m)`; by `fshift_int_eq_roll`,
+`roll x m` is `fshift(x, m)`.  (Proof: the correlation is the autocorrelation `R` centred at `n/2 - m`; `R(k) < R(0)` for
+`k ≠ 0` because `Σ (x_{u+k} - x_u)² > 0` for a finitely supported non-zero sequence; `R` is even, so the parabola through
+`R(-1), R(0), R(1)` peaks on the sample.)  Fractional delays: numeric oracle only. -/
+theorem corrmax_integer_delay (x : Array ℝ) (m : ℤ) (hne : ∃ i, i < x.size ∧ at0 x i ≠ 0) (hw : NoWrap x m)
+    (hin : 0 < ((x.size / 2 : ℕ) : ℤ) - m ∧ ((x.size / 2 : ℕ) : ℤ) - m < (x.size : ℤ) - 1) :
+    waveShiftCorrmax realTrig (1 / 2 : ℝ) realIsZero realLt x (roll x m) = (x, (m : ℝ)) :=
+  waveShiftCorrmax_integer_delay x m hne hw hin
+
+/-- the cross-correlation the estimate is computed from: autocorrelation of the zero-extended waveform at lag `j - n/2 + m` -/
+theorem corrmax_correlation (x : Array ℝ) (m : ℤ) (hw : NoWrap x m) (j : ℕ) (hj : j < x.size) :
+    at0 (correlateSame x (roll x m)) j = acorr (zext x) ((j : ℤ) - ((x.size / 2 : ℕ) : ℤ) + m) :=
+  correlateSame_roll x m hw j hj
+
+/-- the autocorrelation of a non-zero finitely supported sequence is even and has its strict maximum at lag 0 -/
+theorem autocorrelation_peak (f : ℤ → ℝ) (hf : (Function.support f).Finite) (hne : ∃ i, f i ≠ 0) (k : ℤ) (hk : k ≠ 0) :
+    acorr f k < acorr f 0 ∧ acorr f (-k) = acorr f k :=
+  ⟨acorr_lt f hf hne k hk, acorr_neg f k⟩
+
 /-! ### Non-vacuity of the hypotheses -/
+
+/-- `corrmax_integer_delay`: the 7-sample waveform `[0, 0, 1, 2, 1, 0, 0]` delayed by one sample satisfies all hypotheses -/
+example : (∃ i, i < (#[0, 0, 1, 2, 1, 0, 0] : Array ℝ).size ∧ at0 (#[0, 0, 1, 2, 1, 0, 0] : Array ℝ) i ≠ 0)
+    ∧ NoWrap (#[0, 0, 1, 2, 1, 0, 0] : Array ℝ) 1
+    ∧ (0 < (((#[0, 0, 1, 2, 1, 0, 0] : Array ℝ).size / 2 : ℕ) : ℤ) - 1
+        ∧ (((#[0, 0, 1, 2, 1, 0, 0] : Array ℝ).size / 2 : ℕ) : ℤ) - 1 < ((#[0, 0, 1, 2, 1, 0, 0] : Array ℝ).size : ℤ) - 1) := by
+  refine ⟨⟨2, by simp, by simp [at0, Array.getD]⟩, ?_, by simp⟩
+  intro i hi hx
+  have hi7 : i < 7 := by simpa using hi
+  interval_cases i <;> simp_all [at0, Array.getD]
+/-- `fshift_nd_pertrace`: a 2 × 3 × 4 array shifted along its middle axis named `-2`, one shift per trace (2 · 4 = 8 entries) -/
+example : normAxis [2, 3, 4].length (-2) = some 1 ∧ 2 ≤ [2, 3, 4].getD 1 0
+    ∧ (Shift.perTrace (#[1, 2, 3, 4, 5, 6, 7, 8] : Array ℝ)).fitsND (extentProd ([2, 3, 4].take 1)) (extentProd ([2, 3, 4].drop (1 + 1))) := by
+  refine ⟨by decide, by decide, ?_⟩
+  simp [Shift.fitsND, extentProd]
+/-- `fshift_nd_two_dim_rows`: a rectangular 2 × 3 array -/
+example : ∀ i (h : i < (#[#[1, 2, 3], #[4, 5, 6]] : Array (Array ℝ)).size), (#[#[1, 2, 3], #[4, 5, 6]] : Array (Array ℝ))[i].size = 3 := by
+  intro i h
+  have h2 : i < 2 := by simpa using h
+  interval_cases i <;> simp
+/-- `fshift_freq_shape`: a half spectrum of 3 bins goes with 4 (or 5) samples -/
+example : (2 ≤ 4) ∧ (#[(1, 0), (0, 1), (2, 0)] : Array (ℝ × ℝ)).size = 4 / 2 + 1 := by simp
+/-- `fshift_inverse`: each disjunct is inhabited (odd length; whole shift; Nyquist-free trace) -/
+example : (#[1, 2, 3] : Array ℝ).size % 2 = 1 ∨ (∃ m : ℤ, (0.5 : ℝ) = m) ∨ nyquist #[1, 2, 3] = 0 := Or.inl (by simp)
+/-- `parabolic_max_rows`: a 2-row array with non-empty rows -/
+example : ∀ i (h : i < (#[#[1, 3, 2], #[5, 4]] : Array (Array ℝ)).size), 0 < (#[#[1, 3, 2], #[5, 4]] : Array (Array ℝ))[i].size := by
+  intro i h
+  have h2 : i < 2 := by simpa using h
+  interval_cases i <;> simp
 
 /-- odd length, with Nyquist-free and integer-shift alternatives: each disjunct of `fshift_add`'s hypothesis is inhabited -/
 example : (#[1, 2, 3] : Array ℝ).size % 2 = 1 := by simp
